@@ -8,7 +8,6 @@ package dnssec
 // receives every hash value as data (its rank among the values of the case).
 
 import (
-	"encoding/base32"
 	"encoding/hex"
 	"fmt"
 	"math/big"
@@ -16,162 +15,11 @@ import (
 	"sort"
 	"strings"
 	"testing"
+	"testing/synctest"
 
 	"github.com/miekg/dns"
 	"github.com/semihalev/sdns/internal/dnsutil"
 )
-
-var vC02B32 = base32.HexEncoding.WithPadding(base32.NoPadding)
-
-type vC02Rec3 struct {
-	zone     vC02Name // owner without the hash label
-	label    string   // first label as text
-	next     []byte   // next hashed owner (raw)
-	alg      uint8
-	flags    uint8
-	iter     uint16
-	salt     string // hex
-	class    uint16
-	types    []uint16
-	genuine  bool
-	note     string
-	hashedOf vC02Name
-}
-
-func (r vC02Rec3) rr() *dns.NSEC3 {
-	return &dns.NSEC3{
-		Hdr:        dns.RR_Header{Name: r.label + "." + strings.TrimPrefix(vC02Pres(r.zone), "."), Rrtype: dns.TypeNSEC3, Class: r.class, Ttl: 300},
-		Hash:       r.alg,
-		Flags:      r.flags,
-		Iterations: r.iter,
-		SaltLength: uint8(len(r.salt) / 2),
-		Salt:       r.salt,
-		HashLength: uint8(len(r.next)),
-		NextDomain: vC02B32.EncodeToString(r.next),
-		TypeBitMap: append([]uint16(nil), r.types...),
-	}
-}
-
-// decode a 32-char base32hex label to its value; ok=false when it is not one
-func vC02Decode32(s string) (*big.Int, bool) {
-	if len(s) != 32 {
-		return nil, false
-	}
-	b, err := vC02B32.DecodeString(strings.ToUpper(s))
-	if err != nil || len(b) != 20 {
-		return nil, false
-	}
-	return new(big.Int).SetBytes(b), true
-}
-
-type vC02Params struct {
-	iter uint16
-	salt string
-}
-
-func vC02Hash(n vC02Name, p vC02Params) []byte {
-	h := dns.HashName(vC02Pres(n), dns.SHA1, p.iter, p.salt)
-	b, err := vC02B32.DecodeString(strings.ToUpper(h))
-	if err != nil || len(b) != 20 {
-		panic("vC02Hash: " + h)
-	}
-	return b
-}
-
-// the genuine NSEC3 chain: every owner and empty non-terminal is hashed, except
-// (Opt-Out) insecure delegations chosen to be left out and the empty
-// non-terminals that exist only because of them
-func (g *vC02Gen) nsec3Chain(z *vC02Zone, p vC02Params, optout bool, allFlagged bool) (chain []vC02Rec3, omitted []vC02Name) {
-	r := g.r
-	type hn struct {
-		name  vC02Name
-		types []uint16
-		h     []byte
-	}
-	omit := map[string]bool{}
-	if optout {
-		for _, nd := range z.nodes {
-			underWild := false // Opt-Out never hides a wildcard name (optout_discipline in Proofs_Nsec3.v)
-			for _, l := range nd.name[:len(nd.name)-len(z.apex)] {
-				if string(l) == "*" {
-					underWild = true
-				}
-			}
-			if !underWild && vC02Has(nd.types, dns.TypeNS) && !vC02Has(nd.types, dns.TypeSOA) && !vC02Has(nd.types, dns.TypeDS) && r.Intn(3) > 0 {
-				omit[vC02Key(nd.name)] = true
-				omitted = append(omitted, nd.name)
-			}
-		}
-	}
-	seen := map[string]bool{}
-	var hs []hn
-	for _, nd := range z.nodes {
-		if omit[vC02Key(nd.name)] {
-			continue
-		}
-		var ts []uint16
-		for _, t := range nd.types {
-			if t != dns.TypeNSEC {
-				ts = append(ts, t)
-			}
-		}
-		if !seen[vC02Key(nd.name)] {
-			seen[vC02Key(nd.name)] = true
-			hs = append(hs, hn{nd.name, ts, vC02Hash(nd.name, p)})
-		}
-		for k := len(z.apex); k < len(nd.name); k++ { // ancestors: empty non-terminals get an NSEC3 with no types
-			a := vC02Suffix(nd.name, k)
-			if z.owner(a) == nil && !seen[vC02Key(a)] {
-				seen[vC02Key(a)] = true
-				hs = append(hs, hn{a, nil, vC02Hash(a, p)})
-			}
-		}
-	}
-	// empty non-terminals above omitted delegations only
-	for _, o := range omitted {
-		for k := len(z.apex); k < len(o); k++ {
-			a := vC02Suffix(o, k)
-			if z.owner(a) == nil && !seen[vC02Key(a)] {
-				omitted = append(omitted, a)
-				seen[vC02Key(a)] = true
-			}
-		}
-	}
-	sort.Slice(hs, func(i, j int) bool { return string(hs[i].h) < string(hs[j].h) })
-	for i, x := range hs {
-		nx := hs[(i+1)%len(hs)].h
-		fl := uint8(0)
-		if optout && allFlagged {
-			fl = 1
-		}
-		for _, o := range omitted { // a span hiding an unsigned delegation must carry Opt-Out
-			oh := string(vC02Hash(o, p))
-			lo, hi := string(x.h), string(nx)
-			in := false
-			switch {
-			case lo < hi:
-				in = lo < oh && oh < hi
-			case lo > hi:
-				in = oh > lo || oh < hi
-			default:
-				in = oh != lo
-			}
-			if in {
-				fl = 1
-			}
-		}
-		chain = append(chain, vC02Rec3{zone: z.apex, label: strings.ToLower(vC02B32.EncodeToString(x.h)), next: nx, alg: 1, flags: fl,
-			iter: p.iter, salt: p.salt, class: 1, types: x.types, genuine: true, hashedOf: x.name})
-	}
-	return chain, omitted
-}
-
-func vC02CoqOptN(v *big.Int, ranks map[string]int) string {
-	if v == nil {
-		return "None"
-	}
-	return fmt.Sprintf("(Some %d)", ranks[v.String()])
-}
 
 type vC02Probe3 struct {
 	q              vC02Name
@@ -184,6 +32,8 @@ type vC02Probe3 struct {
 	effStr         string
 	note           string
 	fails          []vC02Failure
+	msg            *dns.Msg
+	pq             dns.Question
 }
 
 func (p *vC02Probe3) only(field string) *vC02Probe3 {
@@ -255,11 +105,11 @@ func TestVerifC02Nsec3(t *testing.T) {
 			apex = vC02Name{g.poolLabel(), g.poolLabel()}
 		}
 		z := g.genZone(apex, 1+r.Intn(8))
-		vC02Nsec3Case(tr, g, z)
+		vC02Nsec3Case(t, tr, g, z)
 	}
 }
 
-func vC02Nsec3Case(tr *vC02Trace, g *vC02Gen, zin *vC02Zone) {
+func vC02Nsec3Case(t *testing.T, tr *vC02Trace, g *vC02Gen, zin *vC02Zone) {
 	r := g.r
 	// an NSEC3-signed zone has no NSEC RRsets
 	z := &vC02Zone{apex: zin.apex}
@@ -545,6 +395,7 @@ func vC02Nsec3Case(tr *vC02Trace, g *vC02Gen, zin *vC02Zone) {
 		p.dl = vC02ErrClass(VerifyDelegationForZoneWithWork(qs, signerStr, filtered, nil))
 		pq := msg.Question[0]
 		pq.Name = p.effStr
+		p.msg, p.pq = msg, pq
 		res, aerr := EvaluateAggressiveNSEC3(pq, signerStr, aggrIn, nil)
 		p.ag, p.agi = vC02AggrObs(res, aerr, aggrIn)
 
@@ -650,6 +501,8 @@ func vC02Nsec3Case(tr *vC02Trace, g *vC02Gen, zin *vC02Zone) {
 	for _, o := range omitted {
 		om = append(om, vC02Pres(o))
 	}
+	workFailed := "" // set for CaseNsec3Work
+	workDesc := ""
 	emit := func(ps []*vC02Probe3, fkey, fail string) {
 		var pc, pd []string
 		denial, refusal := false, false
@@ -673,8 +526,8 @@ func vC02Nsec3Case(tr *vC02Trace, g *vC02Gen, zin *vC02Zone) {
 		}
 		m := map[string]any{
 			"k": k,
-			"coq": fmt.Sprintf("(CaseNsec3 %s %s [%s] %s %v [%s] %v %v [%s])%%N", z.coq(), vC02Coq(signer), strings.Join(rcoq, ";"),
-				vC02CoqInts(kept), prefilter, strings.Join(tcoq, ";"), exactJudged, aggrJudged, strings.Join(pc, ";")),
+			"coq": fmt.Sprintf("(CaseNsec3%s %s %s [%s] %s %v [%s] %v %v %s[%s])%%N", map[bool]string{false: "", true: "Work"}[workFailed != ""], z.coq(), vC02Coq(signer), strings.Join(rcoq, ";"),
+				vC02CoqInts(kept), prefilter, strings.Join(tcoq, ";"), exactJudged, aggrJudged, workFailed, strings.Join(pc, ";")),
 			"go_fail":    fail,
 			"nontrivial": len(recs) > 0 && denial && refusal,
 			"desc": map[string]any{"zone": z.desc(), "signer": signerStr, "iterations": params.iter, "salt": params.salt, "opt_out_omitted": om,
@@ -682,6 +535,10 @@ func vC02Nsec3Case(tr *vC02Trace, g *vC02Gen, zin *vC02Zone) {
 		}
 		if fkey != "" {
 			m["fkey"] = fkey
+		}
+		if workFailed != "" {
+			m["k"] = "nsec3-work"
+			m["desc"].(map[string]any)["work_governor"] = workDesc
 		}
 		tr.emit(m)
 	}
@@ -706,4 +563,153 @@ func vC02Nsec3Case(tr *vC02Trace, g *vC02Gen, zin *vC02Zone) {
 	if len(group) > 0 {
 		emit(group, "", "")
 	}
+
+	// ---- the same validation under a work governor: the k-th hash computation is refused while a
+	// second validation of the same request tree (sharing the NSEC3 hash memo) is parked on that
+	// slot.  Neither may turn the missing hash into a denial.
+	if len(probes) == 0 || len(filtered) == 0 || r.Intn(2) == 0 {
+		return
+	}
+	p := probes[r.Intn(len(probes))]
+	field := []string{"ne", "nd", "dl", "ag"}[r.Intn(4)]
+	failAt := 1 + r.Intn(3)
+	type wres struct {
+		code int
+		sec  bool
+		idx  []int
+	}
+	run := func(work NSEC3Work) wres {
+		switch field {
+		case "ne":
+			sec, err := VerifyNameErrorForZoneWithWork(p.msg, filtered, signerStr, work)
+			return wres{vC02ErrClass(err), sec, nil}
+		case "nd":
+			sec, err := VerifyNODATAForZoneWithWork(p.msg, filtered, signerStr, work)
+			return wres{vC02ErrClass(err), sec, nil}
+		case "dl":
+			return wres{vC02ErrClass(VerifyDelegationForZoneWithWork(vC02Pres(p.q), signerStr, filtered, work)), false, nil}
+		}
+		res, err := EvaluateAggressiveNSEC3(p.pq, signerStr, aggrIn, work)
+		c, idx := vC02AggrObs(res, err, aggrIn)
+		return wres{c, false, idx}
+	}
+	var leader, follower wres
+	failedKey := ""
+	parked := false
+	synctest.Test(t, func(t *testing.T) {
+		memo := NewNSEC3HashMemo()
+		lw := &vC02Work{memo: memo, failAt: failAt, entered: make(chan struct{}), release: make(chan struct{})}
+		fw := &vC02Work{memo: memo}
+		lch, fch := make(chan wres, 1), make(chan wres, 1)
+		go func() { lch <- run(lw) }()
+		synctest.Wait() // the leader has finished, or is held inside the governor at its failing hash
+		select {
+		case <-lw.entered:
+			parked = true
+		default:
+		}
+		go func() { fch <- run(fw) }()
+		synctest.Wait() // the follower has finished, or is parked on the leader's memo slot
+		if parked {
+			close(lw.release) // now the leader's hash fails
+		}
+		leader, follower = <-lch, <-fch
+		failedKey = lw.failedKey
+	})
+	var failedName vC02Name
+	if parked && failedKey != "" {
+		saltLen := len(hp.salt) / 2
+		off := 1 + 2 + 2 + 2 + saltLen + len(vC02Wire(z.apex))
+		if off <= len(failedKey) {
+			w := []byte(failedKey[off:])
+			var labels vC02Name
+			for i := 0; i < len(w) && w[i] != 0; i += 1 + int(w[i]) {
+				labels = append(labels, w[i+1:i+1+int(w[i])])
+			}
+			failedName = labels
+			tabNamesHas := false
+			for _, e := range tab {
+				if vC02Key(e.n) == vC02Key(labels) {
+					tabNamesHas = true
+				}
+			}
+			if !tabNamesHas {
+				return // a name outside the table: the model cannot follow this run
+			}
+		}
+	}
+	mk := func(w wres, who string) *vC02Probe3 {
+		q := *p
+		q.fails = nil
+		q.ne, q.nd, q.dl, q.ag, q.agi = 99, 99, 99, 99, nil
+		switch field {
+		case "ne":
+			q.ne, q.nes = w.code, w.sec
+		case "nd":
+			q.nd, q.nds = w.code, w.sec
+		case "dl":
+			q.dl = w.code
+		default:
+			q.ag, q.agi = w.code, w.idx
+		}
+		q.note = who
+		return &q
+	}
+	lp, fp := mk(leader, "[leader]"), mk(follower, "[follower]")
+	fail := ""
+	if parked {
+		workFailed = "[" + vC02Coq(failedName) + "] "
+		workDesc = fmt.Sprintf("%s: hash computation #%d (%s) refused while a second validation waited on the shared memo slot", field, failAt, vC02Pres(failedName))
+		for _, w := range []struct {
+			r   wres
+			who string
+		}{{leader, "the validation whose hash was refused"}, {follower, "the validation waiting on the shared memo slot"}} {
+			if w.r.code == 0 || w.r.code == 10 || w.r.code == 13 {
+				fail = fmt.Sprintf("%s accepted a denial (code %d, secure=%v) for %s although the NSEC3 hash of %s could not be computed", w.who, w.r.code, w.r.sec, p.effStr, vC02Pres(failedName))
+			}
+		}
+	} else {
+		workFailed = "[] "
+		workDesc = fmt.Sprintf("%s: governor never refused (fewer than %d hash computations)", field, failAt)
+	}
+	emit([]*vC02Probe3{lp, fp}, "", fail)
+}
+
+type vC02WorkErr struct{}
+
+func (vC02WorkErr) Error() string { return "verif: NSEC3 work budget exhausted" }
+
+// vC02Work: a work governor sharing one request-tree memo; refuses its failAt-th hash computation,
+// after holding it until released
+type vC02Work struct {
+	memo      *NSEC3HashMemo
+	failAt    int
+	calls     int
+	entered   chan struct{}
+	release   chan struct{}
+	failedKey string
+}
+
+func (w *vC02Work) BeginNSEC3Hash() (func(), error) {
+	w.calls++
+	if w.failAt != 0 && w.calls == w.failAt {
+		// the slot being computed is the one memo entry that is not ready yet
+		w.memo.mu.Lock()
+		for k, e := range w.memo.entries {
+			select {
+			case <-e.ready:
+			default:
+				w.failedKey = k
+			}
+		}
+		w.memo.mu.Unlock()
+		close(w.entered)
+		<-w.release
+		return nil, vC02WorkErr{}
+	}
+	return func() {}, nil
+}
+
+func (w *vC02Work) NSEC3HashMemos() NSEC3HashMemoAccess {
+	return NSEC3HashMemoAccess{Read: w.memo, Write: w.memo}
 }
